@@ -55,6 +55,8 @@ type VerifC10WedgeObs struct {
 	Running      bool    `json:"running"`      // isRunning() afterwards
 	Late         string  `json:"late"`         // a send issued after everything
 	LateCbs      int     `json:"lateCbs"`
+	CbsCall      [][]int `json:"cbsCall"` // what each callback saw when it was called (Cbs: what it holds at the end)
+	Shared       bool    `json:"shared,omitempty"`
 	ClientEnded  bool    `json:"clientEnded"` // the client function had returned by itself before it was let go (it must not)
 	WaitS        int64   `json:"waitS"` // whole seconds (not compared)
 	StopS        int64   `json:"stopS"`
@@ -143,6 +145,7 @@ func VerifC10Wedge(spec VerifC10WedgeSpec) VerifC10WedgeObs {
 	defer letGo()
 
 	var mu sync.Mutex
+	var kept []verifC10Kept
 	for i := 0; i < n; i++ {
 		i := i
 		want := VerifC10Name(i)
@@ -152,15 +155,13 @@ func VerifC10Wedge(spec VerifC10WedgeSpec) VerifC10WedgeObs {
 				v = -3
 			}
 			if err == nil {
-				v = -2
-				if resp != nil && name == want && resp.GetTestName() == name {
-					if p := resp.GetResponse().GetPayloads(); len(p) == 1 && string(p[0].GetData()) == name {
-						v = i
-					}
-				}
+				v = verifC10RespCode(want, name, resp)
+			} else {
+				resp = nil
 			}
 			mu.Lock()
 			obs.Cbs[i] = append(obs.Cbs[i], v)
+			kept = append(kept, verifC10Kept{i: i, name: name, resp: resp, vCall: v})
 			mu.Unlock()
 		})
 		mu.Lock()
@@ -238,9 +239,14 @@ func VerifC10Wedge(spec VerifC10WedgeSpec) VerifC10WedgeObs {
 	obs.LateCbs = lateCbs
 	out := obs
 	out.Rets = append([]string{}, obs.Rets...)
-	out.Cbs = make([][]int, len(obs.Cbs))
-	for i := range obs.Cbs {
-		out.Cbs[i] = append([]int{}, obs.Cbs[i]...)
+	if obs.ReaderDone {
+		out.Cbs, out.CbsCall, out.Shared = verifC10Settle(n, kept, VerifC10Name)
+	} else {
+		out.Cbs = make([][]int, len(obs.Cbs))
+		for i := range obs.Cbs {
+			out.Cbs[i] = append([]int{}, obs.Cbs[i]...)
+		}
+		out.CbsCall = out.Cbs
 	}
 	return out
 }
